@@ -41,6 +41,7 @@ SORTS = {
     "EI": "raw<ipr::cxx_form::Elemental_initializer>({x})", "NAMED": "raw<ipr::Capture_specification::Named>({x})",
     "LNK": "w.linkage({x})", "FN": "w.as<ipr::Function>({x})", "FA": "w.as<ipr::Forall>({x})",
     "TV": "static_cast<ipr::TokenValue>({x})", "TC": "static_cast<ipr::TokenCategory>({x})",
+    "MAP": "w.as<ipr::Mapping>({x})", "FD": "w.as<ipr::Fundecl>({x})",
 }
 
 # The operand pool: (name, sorts it serves, C++ expression yielding the id, facts)
@@ -70,7 +71,7 @@ POOL = [
     ("st2", "ST", 'w.reg(*lx.make_expr_stmt(w.as<ipr::Expr>(e2)))', {"ty": 3}),
     ("sr1", "SR", 'w.reg(*lx.make_scope_ref(w.as<ipr::Expr>(e1), w.as<ipr::Expr>(e2)))', {}),
     ("sr2", "SR", 'w.reg(*lx.make_scope_ref(w.as<ipr::Expr>(e2), w.as<ipr::Expr>(e1)))', {}),
-    ("map1", "", 'w.reg(*(pool_mapping = lx.make_mapping(w.as<ipr::Region>(gr), ipr::Mapping_level{1})))', {}),
+    ("map1", "MAP", 'w.reg(*(pool_mapping = lx.make_mapping(w.as<ipr::Region>(gr), ipr::Mapping_level{1})))', {}),
     ("p1", "P", 'w.reg(*pool_mapping->param(w.as<ipr::Name>(idA), lx.int_type()))', {"ty": 12, "nm": "idA"}),
     ("p2", "P", 'w.reg(*pool_mapping->param(w.as<ipr::Name>(idB), lx.char_type()))', {"ty": 3, "nm": "idB"}),
     ("sb1", "SUBST", 'reg_raw(static_cast<const ipr::Substitution*>(lx.make_elementary_substitution(w.as<ipr::Parameter>(p1), w.as<ipr::Expr>(e1))))', {}),
@@ -91,6 +92,8 @@ POOL = [
     ("fa1", "FA", 'w.reg(lx.get_forall(lx.get_product(impl::Warehouse<ipr::Type>{}), lx.int_type()))', {"ty": 22}),
     ("fa2", "FA", 'w.reg(lx.get_forall(lx.get_product(impl::Warehouse<ipr::Type>{}), lx.char_type()))', {"ty": 22}),
     ("nc2", "NAMED", 'reg_raw(static_cast<const ipr::Capture_specification::Named*>(&caps.binding_capture(w.as<ipr::Identifier>(idB), w.as<ipr::Expr>(e2), ipr::Binding_mode::Reference)))', {}),
+    ("pl1", "PL", 'w.reg(static_cast<const ipr::Mapping&>(*pool_mapping).parameters())', {}),
+    ("fd1", "FD", 'w.reg(*w.unit.global_region()->declare_fun(w.as<ipr::Name>(idB), w.as<ipr::Function>(fn2)))', {"nm": "idB"}),
 ]
 POOL_ID = {name: NCONST + 1 + k for k, (name, _, _, _) in enumerate(POOL)}
 # candidates per sort: [first, second]; constants for types and small integers for enumerations
@@ -252,8 +255,10 @@ F("decl_typedecl", "ipr::Typedecl", "Typedecl", "N T", "pool_sub->declare_type($
 F("decl_alias", "ipr::Alias", "Alias", "N E", "pool_sub->scope.make_alias($1, $2)",
   "name=1 initializer=2 lexical_region=@home home_region=@home linkage=@link specifiers=#0", "B 2", HOME_LINKS)
 F("decl_fundecl", "ipr::Fundecl", "Fundecl", "N FN", "pool_sub->declare_fun($1, $2)",
-  "name=1 parameters=! mapping=0 initializer=0 lexical_region=@lexreg home_region=@home linkage=@link specifiers=#0 definition=0", "G 2",
-  DECL_LINKS)
+  "name=1 parameters=via:map:pl1 mapping=?map initializer=?map lexical_region=@lexreg home_region=@home linkage=@link specifiers=#0 definition=?def",
+  "G 2",
+  "map:MAP:set:static_cast<std::variant<impl::Parameter_list*, impl::Mapping*>&>($n->data) = const_cast<impl::Mapping*>(dynamic_cast<const impl::Mapping*>(&$v))"
+  "|def:FD:set:$n->decl_data.master_data->def = &$v|" + DECL_LINKS)
 F("decl_primary_template", "ipr::Template", "Template", "N FA", "pool_sub->declare_primary_template($1, $2)",
   "name=1 mapping=! primary_template=self specializations=[] lexical_region=@lexreg home_region=@home linkage=@link specifiers=#0 definition=0",
   "G 2", DECL_LINKS)
@@ -335,6 +340,9 @@ def parse_src(src):
         return '[k |-> "optional", v |-> 0, l |-> "%s"]' % src[1:]
     if src.startswith("*"):
         return '[k |-> "pushed", v |-> 0, l |-> "%s"]' % src[1:]
+    if src.startswith("via:"):
+        _, link, pool = src.split(":")
+        return '[k |-> "via", v |-> %d, l |-> "%s"]' % (POOL_ID[pool], link)
     if src.startswith("^"):
         f, i = src[1:].split(".")
         return '[k |-> "made_with", v |-> %s, l |-> "%s"]' % (i, f)
